@@ -96,6 +96,13 @@ func init() {
 				"sig-timelock-covered": func(t *types.Transaction) {
 					t.Signatures = append(t.Signatures, types.TransactionSignature{Timelock: ^uint64(0), PublicKeyIndex: ^uint64(0), CoveredFields: types.CoveredFields{MinerFees: []uint64{0, 1 << 40}, Signatures: []uint64{}}})
 				},
+				"sig-whole-and-signatures": func(t *types.Transaction) {
+					t.Signatures = append(t.Signatures, types.TransactionSignature{CoveredFields: types.CoveredFields{WholeTransaction: true, Signatures: []uint64{0, 2}}})
+				},
+				"sig-whole-and-every-list": func(t *types.Transaction) {
+					t.Signatures = append(t.Signatures, types.TransactionSignature{CoveredFields: types.CoveredFields{WholeTransaction: true, SiacoinInputs: []uint64{1}, SiacoinOutputs: []uint64{2}, FileContracts: []uint64{3}, FileContractRevisions: []uint64{4},
+						StorageProofs: []uint64{5}, SiafundInputs: []uint64{6}, SiafundOutputs: []uint64{7}, MinerFees: []uint64{8}, ArbitraryData: []uint64{9}, Signatures: []uint64{10}}})
+				},
 				"odd-key": func(t *types.Transaction) {
 					t.SiacoinInputs[0].UnlockConditions.PublicKeys = append(t.SiacoinInputs[0].UnlockConditions.PublicKeys, types.UnlockKey{Algorithm: types.NewSpecifier("x y:z"), Key: nil})
 				},
